@@ -20,8 +20,32 @@ pub struct Act {
     pub kind: i64,
 }
 
-#[derive(Clone, Debug, Default, PartialEq)]
+#[derive(Debug, Default, PartialEq)]
 pub struct St(pub Vec<(String, i64)>);
+
+/// free runs: cloning the state takes up to this many microseconds (the store clones it while holding
+/// the state lock, so concurrent readers then really overlap); 0 = off
+pub static SLOW_CLONE_US: std::sync::atomic::AtomicU64 = std::sync::atomic::AtomicU64::new(0);
+static CLONE_RNG: std::sync::atomic::AtomicU64 = std::sync::atomic::AtomicU64::new(0x9E3779B97F4A7C15);
+
+impl Clone for St {
+    fn clone(&self) -> Self {
+        let us = SLOW_CLONE_US.load(std::sync::atomic::Ordering::Relaxed);
+        if us > 0 {
+            let mut x = CLONE_RNG.load(std::sync::atomic::Ordering::Relaxed);
+            x ^= x << 13;
+            x ^= x >> 7;
+            x ^= x << 17;
+            CLONE_RNG.store(x, std::sync::atomic::Ordering::Relaxed);
+            let t = Instant::now();
+            let d = std::time::Duration::from_micros(x % us);
+            while t.elapsed() < d {
+                std::hint::spin_loop();
+            }
+        }
+        St(self.0.clone())
+    }
+}
 
 impl St {
     pub fn json(&self) -> Value {
@@ -129,6 +153,8 @@ pub struct Config {
     pub slow_reduce_us: u64,
     #[serde(default)]
     pub slow_deliver_us: u64,
+    #[serde(default)]
+    pub slow_clone_us: u64,
 }
 fn store_name() -> String {
     "store".into()
@@ -511,6 +537,10 @@ impl Selector<St, i64> for KindSel {
 
 pub fn build_store(env: &Arc<Env>) -> Result<Arc<TStore>, StoreError> {
     let cfg = &env.cfg;
+    SLOW_CLONE_US.store(
+        if sched().is_free() { cfg.slow_clone_us } else { 0 },
+        std::sync::atomic::Ordering::Relaxed,
+    );
     sched().hint_store(&env.prefix);
     sched().set_fine_reg(cfg.fine_reg);
     let mut b = StoreBuilder::new(St::default())
